@@ -716,6 +716,30 @@ class GridMachineBase(Machine):
             names, arg = [b.name for b in g.blocklist], None
         amax = 1.e25
         proc = [n for n in names if 0. < g.block[n].volume < amax]
+        if ch[3] % 8 == 7 and len(proc) >= 2 and not self.geo_valid:
+            # two of the blocks get names that differ only in the leading character, which the
+            # default matrix-block naming overwrites: their matrix blocks would share names
+            n1, n2 = proc[0], proc[-1]
+            twin = ('q' if n1[0] != 'q' else 'r') + n1[1:]
+            if twin not in g.block and canon_name(twin) == twin:
+                self.call(lambda: g.rename_blocks({n2: twin}, fix_blocknames=False),
+                          'rename_blocks')
+                mp = {n2: twin}
+                m = self.model
+                m.b = dict((mp.get(nm, nm), v) for nm, v in m.b.items())
+                newc = {}
+                for v in m.c.values():
+                    v = dict(v)
+                    v['first'], v['second'] = mp.get(v['first'], v['first']), \
+                        mp.get(v['second'], v['second'])
+                    v['dist'] = dict((mp.get(nm, nm), d) for nm, d in v['dist'].items())
+                    newc[(v['first'], v['second'])] = v
+                m.c = newc
+                names = [mp.get(x, x) for x in names]
+                proc = [mp.get(x, x) for x in proc]
+                if arg is not None:
+                    arg = names if ch[3] % 4 == 1 else [g.block[x] for x in names]
+                self.ctx.probes['minc_twin_names'] += 1
         # precondition: generated matrix-block names are free and distinct (else minc refuses)
         new = [str(m) + n[len(str(m)):] for n in proc for m in range(1, nf)]
         if not proc:
@@ -725,8 +749,6 @@ class GridMachineBase(Machine):
         if len(set(new)) != len(new) or any(x in g.block for x in new):
             # generated matrix-block names collide: minc must refuse loudly, never build a
             # grid in which one block silently replaces another
-            if self.PHYSICS:
-                return False
             try:
                 g.minc(vf, spacing, npl, arg)
             except Exception:
